@@ -349,6 +349,13 @@ fn show(args: &[String]) -> Result<u8, String> {
             println!("IN  {}", ev.short());
         }
         println!("--- {} report ---\n{}", r.reporter, r.output);
+        if let Some(t) = &r.term_output {
+            println!("--- terminal mode, raw ---\n{}", t.replace('\x1b', "\u{241b}"));
+            match cucumber_sim::reporters::emulate_terminal(t) {
+                Ok(screen) => println!("--- terminal mode, screen ---\n{}", screen.join("\n")),
+                Err(e) => println!("--- terminal mode: {e}"),
+            }
+        }
     }
     if let Some(b) = &e.bhistory {
         for ev in &b.raw {
